@@ -37,6 +37,7 @@ type verifC12_ghost struct {
 	cleaning int // cleaner calls in progress
 	held     int // successful Acquire minus Release
 	cleans   int
+	clean    bool // the last cleaner call succeeded and nothing has run since
 }
 
 func verifHarness_C12_IdleInvoker() {
@@ -50,6 +51,7 @@ func verifHarness_C12_IdleInvoker() {
 	ii := NewIdleInvoker(func(ctx context.Context) error {
 		g.cleaning++
 		g.cleans++
+		g.clean = false
 		rt.Assert(g.cleaning == 1, "cleaner calls never overlap each other")
 		rt.Assert(g.inUse == 0, "cleaner never runs while an action is running")
 		rt.Assert(g.held == 0, "cleaning happens only at the transitions between idle and in use")
@@ -60,6 +62,7 @@ func verifHarness_C12_IdleInvoker() {
 		if fail {
 			return status.Error(codes.Internal, "cleaning failed")
 		}
+		g.clean = true
 		return nil
 	})
 	for t := 0; t < threads; t++ {
@@ -82,6 +85,10 @@ func verifHarness_C12_IdleInvoker() {
 			if g.cleans > cleansBefore {
 				rt.Cover("clean:on-acquire")
 			}
+			if g.held == 0 {
+				rt.Assert(g.clean, "coming from idle, an action only starts after a cleaning that succeeded (a failed cleaning prevents the start, also for callers that merely waited for it)")
+			}
+			g.clean = false
 			g.held++
 			g.inUse++
 			rt.Assert(g.cleaning == 0, "an action never runs while the cleaner runs")
